@@ -1,0 +1,158 @@
+//go:build verif
+
+// Contracts for package uu, read by /verif/govc (never compiled into normal builds).
+// Properties: C05 (text form), C19 (random IDs), uu's share of C16, C17, C18.
+
+package uu
+
+//@ config MaxInputLength
+//@ config Formatter = DefaultFormatter
+//@ config Parser = DefaultParser[[]byte]
+//@ constvar starts random randomMutex
+//@ guarded random by randomMutex
+
+// ---- the statement of C05 as specification functions --------------------------------------------
+//@ pure func hexLower(c byte) bool = ('0' <= c && c <= '9') || ('a' <= c && c <= 'f')
+//@ pure func hexUpper(c byte) bool = 'A' <= c && c <= 'F'
+//@ pure func hexOK(c byte, r Rule) bool = hexLower(c) || (r&RuleDisableUpperCaseDigits == 0 && hexUpper(c))
+//@ pure func hexval(c byte) uint64 = ite(c <= '9', uint64(c-'0'), ite(c <= 'F', uint64(c-'A')+10, uint64(c-'a')+10))
+//@ pure func hexchar(v uint64) byte = ite(v < 10, '0'+byte(v), 'a'+byte(v-10))
+//@ pure func hyphenAt(i int) bool = i == 8 || i == 13 || i == 18 || i == 23
+//@ pure func pos(k int) int = k + ite(k >= 8, 1, 0) + ite(k >= 12, 1, 0) + ite(k >= 16, 1, 0) + ite(k >= 20, 1, 0)
+//@ pure func plain(w bytes, o int, r Rule) bool = forall i in 0..36 :: ite(hyphenAt(i), w[o+i] == '-', hexOK(w[o+i], r))
+//@ pure func urnPrefix(w bytes) bool = (w[0] == 'u' || w[0] == 'U') && (w[1] == 'r' || w[1] == 'R') && (w[2] == 'n' || w[2] == 'N')
+//@     && w[3] == ':' && w[4] == 'u' && w[5] == 'u' && w[6] == 'i' && w[7] == 'd' && w[8] == ':'
+//@ pure func uuText(w bytes, r Rule) bool = (len(w) == 36 && plain(w, 0, r))
+//@     || (len(w) == 45 && r&RuleDisableURN == 0 && urnPrefix(w) && plain(w, 9, r))
+//@ pure func nib(w bytes, k int) uint64 = hexval(w[ite(len(w) == 45, 9, 0)+pos(k)])
+//@ pure func hi(w bytes) uint64 = bitor k in 0..16 :: nib(w, k) << uint(60-4*k)
+//@ pure func lo(w bytes) uint64 = bitor k in 0..16 :: nib(w, 16+k) << uint(60-4*k)
+//@ pure func withinLimit(n int) bool = MaxInputLength == 0 || n <= MaxInputLength
+
+//@ func parseDigit
+//@   mode bv
+//@   ensures [C05.digit] r1 <==> (hexLower(digit) || (allowUpperCase && hexUpper(digit)))
+//@   ensures [C05.digit] r1 ==> r0 == hexval(digit)
+//@   ensures [C05.digit] !r1 ==> r0 == 0
+
+//@ func hasURNPrefix
+//@   mode bv
+//@   requires len(input) >= 9
+//@   ensures [C05.prefix] result <==> urnPrefix(input)
+//@   loop 0 unroll 6
+
+//@ func DefaultParser
+//@   mode bv
+//@   ensures [C05.accept] err == nil <==> withinLimit(len(input)) && uuText(input, r)
+//@   ensures [C05.value] err == nil ==> id.Higher == hi(input) && id.Lower == lo(input)
+//@   ensures [C05.zero C17.zero] err != nil ==> id == ID{} && errAs(err, *ParseError[T])
+//@   ensures [C05.class] withinLimit(len(input)) && len(input) == 45 && r&RuleDisableURN != 0 ==> errIs(err, ErrURNFormatDisabled)
+//@   ensures [C18.limit] !withinLimit(len(input)) ==> errIs(err, ErrInputTooLong) && errData(err, "inputLen") == 0
+//@   ensures [C18.limit] errIs(err, ErrInputTooLong) ==> !withinLimit(len(input))
+//@   split len(input) == 36
+//@   split len(input) == 45
+//@   loop 0 unroll 16
+//@   loop 1 unroll 2
+
+//@ func newParseError
+//@   inline
+
+// ---- formatter ---------------------------------------------------------------------------------------
+//@ pure func digitOf(id ID, k int) uint64 = ite(k < 16, (id.Higher >> uint(60-4*k)) & 0xf, (id.Lower >> uint(60-4*(k-16))) & 0xf)
+//@ pure func digitIdx(i int) int = i - ite(i > 23, 4, ite(i > 18, 3, ite(i > 13, 2, ite(i > 8, 1, 0))))
+//@ pure func layout(id ID, i int) byte = ite(hyphenAt(i), '-', hexchar(digitOf(id, digitIdx(i))))
+//@ pure func urnOff(f Format) int = ite(f&FormatURN != 0, 9, 0)
+
+//@ func DefaultFormatter
+//@   ensures [C05.layout C16.append] err == nil
+//@   ensures [C05.layout C16.append] len(result) == len(buf) + 36 + urnOff(f)
+//@   ensures [C16.append] forall i in 0..len(buf) :: result[i] == old(buf)[i]
+//@   ensures [C05.layout C16.append] f&FormatURN != 0 ==> result[len(buf):len(buf)+9] == "urn:uuid:"
+//@   ensures [C05.layout C16.append] forall i in 0..36 :: result[len(buf)+urnOff(f)+i] == layout(id, i)
+//@   ensures [C16.inplace] sameOrFresh(result, buf)
+//@   assigns buf[len(buf):]
+
+//@ func (ID).Version
+//@   mode bv
+//@   ensures [C05.version] result == int(digitOf(i, 12))
+
+//@ func (ID).Variant
+//@   mode bv
+//@   ensures [C05.variant] result == ite(digitOf(i, 16)&8 == 0, 0, ite(digitOf(i, 16)&4 == 0, 1, ite(digitOf(i, 16)&2 == 0, 2, 3)))
+
+//@ func formatByVerb
+//@   ensures [C05.verb] result == ite(verb == 'u', FormatURN, 0)
+
+//@ func (ID).format
+//@   ensures [C05.layout] len(result) == 36 + urnOff(f)
+//@   ensures [C05.layout] f&FormatURN != 0 ==> result[0:9] == "urn:uuid:"
+//@   ensures [C05.layout] forall k in 0..36 :: result[urnOff(f)+k] == layout(i, k)
+
+//@ func (ID).String
+//@   ensures [C05.layout] len(result) == 36
+//@   ensures [C05.layout] forall k in 0..36 :: result[k] == layout(i, k)
+
+//@ func (ID).URN
+//@   ensures [C16.urn C05.layout] len(result) == 45 && result[0:9] == "urn:uuid:"
+//@   ensures [C16.urn C05.layout] forall k in 0..36 :: result[9+k] == layout(i, k)
+
+//@ func (ID).MarshalText
+//@   ensures [C05.layout] err == nil && len(r0) == 36
+//@   ensures [C05.layout] forall k in 0..36 :: r0[k] == layout(i, k)
+//@   ensures fresh(r0)
+
+//@ func (*ID).UnmarshalText
+//@   mode bv
+//@   ensures [C17.recv] err != nil ==> *i == old(*i)
+//@   ensures [C05.accept] err == nil <==> withinLimit(len(data)) && uuText(data, 0)
+//@   ensures [C05.value] err == nil ==> i.Higher == hi(data) && i.Lower == lo(data)
+//@   assigns *i
+
+// ---- C19 -------------------------------------------------------------------------------------------------
+//@ func twoRandomUint63
+//@   mode bv
+//@   ensures [C19.draw] r0 < 1<<63 && r1 < 1<<63
+
+//@ func RandomID
+//@   mode bv
+//@   ensures [C19.bits] int(digitOf(result, 12)) == 4
+//@   ensures [C19.bits] digitOf(result, 16)&8 != 0 && digitOf(result, 16)&4 == 0
+
+// ---- lemmas (harness functions below, verified against the contracts above only) ----------------------------
+//@ func lemmaC05RoundTrip
+//@   mode bv
+//@   lemma
+//@   requires withinLimit(36 + urnOff(f))
+//@   requires f&FormatURN != 0 ==> r&RuleDisableURN == 0
+//@   split f&FormatURN != 0
+//@   ensures [C05.roundtrip] err == nil && got == id
+
+//@ func lemmaC05ParseSpelling
+//@   mode bv
+//@   lemma
+//@   requires uuText(w, r) && withinLimit(len(w))
+//@   requires forall k in 0..32 :: nib(w, k) == digitOf(id, k)
+//@   ensures [C05.roundtrip] err == nil && got == id
+
+//@ func lemmaC05Accessors
+//@   mode bv
+//@   lemma
+//@   ensures [C05.version] ver == int((id.Higher >> 12) & 0xf)
+//@   ensures [C05.variant] (vr == 0 <==> id.Lower>>63 == 0) && (vr == 1 <==> id.Lower>>62 == 2) && (vr == 2 <==> id.Lower>>61 == 6) && (vr == 3 <==> id.Lower>>61 == 7)
+
+var _ = []any{DefaultParser[string], DefaultParser[[]byte], hasURNPrefix[string], hasURNPrefix[[]byte]}
+
+// Formatting any id and parsing the text back (under any rule that permits the form) gives the same id.
+func lemmaC05RoundTrip(id ID, f Format, r Rule) (got ID, err error) {
+	b, _ := DefaultFormatter(nil, id, f)
+	return DefaultParser(b, r)
+}
+
+// Any accepted text that spells id digit by digit (in either letter case, plain or URN) parses to id.
+func lemmaC05ParseSpelling(id ID, w []byte, r Rule) (got ID, err error) {
+	return DefaultParser(w, r)
+}
+
+func lemmaC05Accessors(id ID) (ver int, vr int) {
+	return id.Version(), id.Variant()
+}
